@@ -145,7 +145,8 @@ class C14(CoordMixin, Prop):
                   ("bbbb", "n:ok", "raise.C0"), ("bbbb", "n:ok", "raise.Cm"), ("bybb", "n:ok", "yes"), ("bbzb", "n:ok", "yes"),
                   ("bbbb", "k1:raise.A0", "raise.V0"), ("bbbb", "n:ok.N", "no"), ("bbbb", "n:ok.N", "raise.V0"),
                   ("bbbb", "n:ok.N", "yes"), ("bbbb", "n:ok.Z", "no"), ("bbbb", "n:ok.F", "raise"), ("bbbb", "n:ok.L", "absent"),
-                  ("bbnb", "n:ok.N", "no"), ("bbbb", "n:ok", "raise.SX"), ("bbbb", "n:raise.SX", "yes"),
+                  ("bbnb", "n:ok.N", "no"), ("bbbb", "n:ok", "no~F"), ("bbbb", "n:ok.N", "yes~F"), ("bbbb", "n:ok", "raise.V0~F"),
+                  ("bbbb", "n:ok", "raise.SX"), ("bbbb", "n:raise.SX", "yes"),
                   ("bbbb", "k1:raise.SX", "raise.SX"), ("bbbb", "n:ok.X", "yes"), ("bbbb", "n:ok.X", "no"),
                   ("bbbb", "n:ok.X", "raise.V0"), ("bbbn", "n:ok.X", "absent"), ("bbbb", "k1:ok.X", "yes"),
                   ("bbbb", "n:ok.B", "yes"), ("bbbb", "n:ok.Q", "no"),
@@ -286,7 +287,7 @@ class C14(CoordMixin, Prop):
                         out.append(Violation("validate_only_after_work", "work completed before validate_fn", f"{log}", idx))
                 # 5. success only if both succeeded — at every layer that reports a success flag
                 wok = t[5].split(":")[1].startswith("ok")
-                vtok = t[6].split("@")[0]
+                vtok = t[6].split("@")[0].replace("~F", "")      # a falsy validator object is a validator
                 vok = vtok in ("absent", "yes")
                 if vtok != "absent" and "work:1" in log and "cp2:1" in log and not any(e.startswith("val:") for e in log):
                     out.append(Violation("validation_runs_after_completed_work",
